@@ -138,6 +138,36 @@ def post(run, cases, impl, model):
                           {"kind": c.meta["kind"], "operation": f.op, "command": f.cmd, "detail": f.detail, "classes": cl,
                            "case": {"name": c.name, "generator": "tools/props/c07.py post(): corpus", "n": len(c.meta["S"]), "params": c.meta["params"]}},
                           found_input=True, classes=cl)
+    # (4) every other Reallocate site (RPFC/RPHTFC rpdict and compressed text, HTFC/HHTFC, HASHHF incl. its trailing bytes, the scratch
+    #     buffers): the expressions the Capacity2 theorems are proved for vs the CURRENT source text, and the boundary corpus the proofs expose
+    from props import cap2_checks, gen_cap2
+    cap2_checks.REPO = vlib.REPO
+    diffs = cap2_checks.compare()
+    run.oblige("growth checks / reservations / write loops of every other Reallocate site in the current source are the ones the "
+               "C07_cap2_* theorems are proved for (%d expressions)" % len(cap2_checks.EXPECTED), not diffs,
+               "; ".join("%s: source has %s, theorem is about %s %s" % (k, g, e, note) for k, e, g, note in diffs[:6]))
+    run.extra["cap2_source_differences"] = [list(map(str, d)) for d in diffs]
+    c2cases, c2res, c2fail, c2known = gen_cap2.run_all(run.tier, run.seed, verbose=False)
+    byname = {c.name: c for c in c2cases}
+    seen_known = False
+    for c in c2cases:
+        run.count((c.name, tuple(c.cmds[:3])), nontrivial=True)
+    for name, f in c2known:
+        if not seen_known:
+            seen_known = True
+            run.violation("%s: %s" % (name, f[:300]), {"kind": byname[name].meta["kind"], "operation": "query", "detail": f},
+                          found_input=True, classes=("decoding_table_crash", "crash"))
+    for name, f in c2fail[:10]:
+        c = byname[name]
+        run.violation("%s (%s %s, %d strings, family %s): %s" % (name, c.meta["kind"], c.meta["params"], len(c.meta["S"]), c.meta["family"], f[:300]),
+                      {"kind": c.meta["kind"], "operation": "build", "detail": f, "command": c.cmds[1] if len(c.cmds) > 1 else "",
+                       "case": {"name": name, "generator": "tools/props/gen_cap2.py gen(%r, %d)" % (run.tier, run.seed), "n": len(c.meta["S"]),
+                                "params": c.meta["params"], "family": c.meta["family"], "exe": c.meta["exe"]}}, found_input=True)
+    run.extra["cap2_corpus"] = {"cases": len(c2cases), "failures": len(c2fail), "known_decoding_table_reports": len(c2known)}
+    if diffs and not run.violations:
+        run.violation("a capacity check / reservation / write loop changed: %s no longer speak(s) for the source (property not seen to fail on the corpus)"
+                      % ", ".join(sorted(set(cap2_checks.THEOREMS.get(k, k) for k, _, _, _ in diffs))[:6]),
+                      {"kind": "capacity", "operation": "capacity-check", "detail": [list(map(str, d)) for d in diffs[:10]]}, found_input=False)
     if not ok and not run.violations:
         run.violation("the PFC constructor's capacity check changed: C07_cap_ok_fixed no longer speaks for the source (property not seen to fail on the corpus)",
                       {"kind": "PFC", "operation": "capacity-check", "detail": "source check: %s" % chk}, found_input=False)
@@ -150,7 +180,9 @@ CFG = DC.Config("C07", D.ALL_KINDS, make_cmds, nsets=(7, 18), big=True, extra_ev
                      "object, all under AddressSanitizer: any report, fatal signal or time-out is a failing input. Corpus with the default "
                      "reservation: the 13124-string capacity witness derived from the Coq refutation of the old growth check, its controls, "
                      "9000-string sets that force real reallocations, uniformly short strings in buckets of 60..400 (Re-Pair input buffer of "
-                     "RPFC/RPHTFC) and 2600-byte random strings (per-bucket budget of the compressed text). Non-trivial = a command; distinct by (kind, params, S, command).")
+                     "RPFC/RPHTFC) and 2600-byte random strings (per-bucket budget of the compressed text); the Capacity2 boundary corpus (sweeps n = 1.."
+                     "with a 16-byte reservation, skewed alphabets whose rare symbols get > 16-bit codewords, totals landing exactly inside the "
+                     "reserved margin). Non-trivial = a command; distinct by (kind, params, S, command).")
 CFG.extra_defs = ("-DLIBCSD_VERIF_MEMALLOC=16",)
 
 CFG.fm_text_residues = [31, 0, 1, 30, 63 % 32, 15, 31]
